@@ -5,7 +5,10 @@ import FluteModel.Admission
          <content type> <md5|-> <etag|-> <groups|->`
      oti     = <fec id>:<E>:<B>:<parity>:<n | q.<z>.<n>.<al> | r.<z>.<n>.<al> | s.<m>.<g>>
      strings = code points, decimal, '.'-separated ("e" = empty); groups = strings separated by '/'
-  -> ok z=<Z|-> next=<v> | ERR <reason> next=<v> | PANIC
+  -> ok z=<Z|-> | ERR | PANIC
+  (which check refuses - `reason` below - and whether the call consumes a TOI value - `Admission.consumesToi` - are
+   NOT part of the compared line: the harness keeps them as samples; the refusal ORDER and the allocation policy are
+   not demanded by any property)
   (sender of the harness: priority queue 0 only, TOI start value 1)
 -/
 namespace Flute.Drv.Admit
@@ -82,11 +85,10 @@ def step (args : List String) : String :=
         let cfg : Cfg := { queues := [0], complete := complete = "1", oti := dflt }
         let obj : Obj := { transferLength := len, oti := ovr, location := [], contentType := ct, md5 := md5,
                            etag := etag, groups := groups, toi := toi }
-        let next := 1 + (if toi = .own then 1 else 0) + (if consumesToi cfg prio obj then 1 else 0)
         match accepts cfg prio obj with
         | .error _ => "PANIC"
-        | .ok (.error r) => s!"ERR {reason r} next={next}"
-        | .ok (.ok a) => s!"ok z={zOf a.oti} next={next}"
+        | .ok (.error _) => "ERR"
+        | .ok (.ok a) => s!"ok z={zOf a.oti}"
     | _, _, _, _, _, _, _, _ => "bad-op"
   | _ => "bad-op"
 
